@@ -17,16 +17,22 @@ def featOfJson (j : Json) : R Feat := do
     | .null => pure default
     | cj => locOfJson cj
   return { loc := ← locOfJson (← fld j "loc"), kind := ← kindOfJson (← fld j "kind"), core := core,
-           single := boolFD j "single" false, product := (strF j "product").toOption.getD "" }
+           single := boolFD j "single" false,
+           labels := { product := (strF j "product").toOption.getD "", tool := (strF j "tool").toOption.getD "",
+                       category := (strF j "category").toOption.getD "",
+                       sideloaded := boolFD j "sideloaded" false } }
 
 def areaOfJson (j : Json) : R Area := do
   return { start := ← intF j "start", «end» := ← intF j "end", kind := ← kindOfJson (← fld j "kind"),
            height := ← intF j "height", nstart := ← intF j "nstart", nend := ← intF j "nend",
-           product := ← strF j "product", group := ← intF j "group" }
+           product := ← strF j "product", group := ← intF j "group",
+           «prefix» := (strF j "prefix").toOption.getD "", category := (strF j "category").toOption.getD "",
+           tool := (strF j "tool").toOption.getD "" }
 def areaToJson (a : Area) : Json :=
   jObj [("start", toJson a.start), ("end", toJson a.end), ("kind", kindToJson a.kind),
         ("height", toJson a.height), ("nstart", toJson a.nstart), ("nend", toJson a.nend),
-        ("product", Json.str a.product), ("group", toJson a.group)]
+        ("product", Json.str a.product), ("group", toJson a.group), ("prefix", Json.str a.prefix),
+        ("category", Json.str a.category), ("tool", Json.str a.tool)]
 
 def orfOfJson (j : Json) : R Orf := do
   return { start := ← intF j "start", «end» := ← intF j "end", strand := ← intF j "strand",
@@ -102,14 +108,15 @@ def handleRegion (j : Json) : R Json := do
                    ("n_protos", toJson (regionProtos cands).length),
                    ("n_tied", toJson (((regionProtos cands).filter fun p => (regionProtos cands).any fun q =>
                       p.id != q.id && reductionKey c p.feat == reductionKey c q.feat).length)),
-                   ("n_gene_crossing", toJson (views.filter (·.crosses)).length)])]
+                   ("n_gene_crossing", toJson (views.filter (·.crosses)).length),
+                   ("genes_loc_ok", toJson (genes.all (geneOK c)))])]
 
 /-- pack alone (unit level): rows as lists of indices into the input -/
 def handlePack (j : Json) : R Json := do
   let feats ← listOf featOfJson (← fld j "areas")
   let L ← intF j "L"
   -- tag each feature by its index through the product field
-  let tagged := feats.zipIdx.map fun (f, i) => { f with product := toString i }
+  let tagged := feats.zipIdx.map fun (f, i) => { f with labels := { product := toString i } }
   let rows := pack tagged (intFD j "length" (-1))
   let rowsJ := match rows with
     | none => Json.null
